@@ -13,6 +13,8 @@ import (
 func init() {
 	register("C35", checkC35)
 	addBreakers("C35",
+		Breaker{Name: "hash-trigger-for-every-pre-existing-ledger", File: "internal/storage/bucket/migrations/11-make-stateless/up.sql",
+			Old: "where bucket = current_schema and features->>'HASH_LOGS' = 'SYNC' loop", New: "where bucket = current_schema loop", Expect: "EXH/ledger-objects-siblings"},
 		Breaker{Name: "aggregated-insertion-mode-unguarded", File: "internal/storage/ledger/resource_aggregated_balances.go",
 			Old: "\t\t\tif !h.store.ledger.HasFeature(features.FeatureMovesHistory, \"ON\") {\n\t\t\t\treturn nil, NewErrMissingFeature(features.FeatureMovesHistory)\n\t\t\t}\n", New: "", Expect: "FEAT/consumers"},
 		Breaker{Name: "volumes-pit-unguarded", File: "internal/storage/ledger/resource_volumes.go",
@@ -39,6 +41,10 @@ func checkC35(c *core.Ctx) {
 	ruleSyncObjects(c)
 	ruleFeatureIndependentWriters(c)
 	ruleSetupAppliesOnExactMatch(c)
+	// a per-ledger object a migration creates for the ledgers that already exist carries the
+	// feature condition ledgerSetups installs it under (shared with C04): otherwise a ledger
+	// without the feature gets the feature's trigger when its bucket is upgraded
+	ruleLedgerObjectSiblings(c)
 	// what a write returns (and logs) must not depend on MOVES_HISTORY: the post-commit volumes
 	// are copied before the MOVES_HISTORY-only unwinding loop (shared with C03); a per-ledger
 	// feature trigger fires for its own ledger only, so a ledger without the feature is not
